@@ -865,6 +865,86 @@ impl VisitMut for Norm {
                 }
             }
         }
+        // N8g4 (pre-order): the map entry API used as a match,
+        //   match M.entry(K) { Entry::Vacant(e) => A, Entry::Occupied(mut e) => B }
+        // is its definition over the map: `if !M.contains_key(&k) { A } else { B }` with `e.insert(V)` = `M.insert(k, V)`,
+        // `e.get_mut()` / `e.get()` = the value stored under k, `e.remove()` = `M.remove(&k)` (k: Copy, evaluated once)
+        if let Expr::Match(m) = e {
+            if let Expr::MethodCall(en) = &*m.expr {
+                if en.method == "entry" && en.args.len() == 1 && m.arms.len() == 2 {
+                    let arm_kind = |a: &Arm| -> Option<(String, Option<Ident>)> {
+                        if a.guard.is_some() { return None; }
+                        if let Pat::TupleStruct(ts) = &a.pat {
+                            let last = ts.path.segments.last()?.ident.to_string();
+                            if (last == "Vacant" || last == "Occupied") && ts.elems.len() == 1 {
+                                return match &ts.elems[0] {
+                                    Pat::Ident(pi) if pi.subpat.is_none() && pi.by_ref.is_none() => Some((last, Some(pi.ident.clone()))),
+                                    Pat::Wild(_) => Some((last, None)),
+                                    _ => None,
+                                };
+                            }
+                        }
+                        None
+                    };
+                    if let (Some(k0), Some(k1)) = (arm_kind(&m.arms[0]), arm_kind(&m.arms[1])) {
+                        if k0.0 != k1.0 {
+                            let sp = en.method.span();
+                            let recv = (*en.receiver).clone();
+                            let key = en.args[0].clone();
+                            let kk = self.fresh("k");
+                            struct EntrySubst { e: Ident, recv: Expr, k: Ident, bad: bool }
+                            impl VisitMut for EntrySubst {
+                                fn visit_expr_mut(&mut self, x: &mut Expr) {
+                                    if let Expr::MethodCall(mc) = x {
+                                        if matches!(&*mc.receiver, Expr::Path(p) if p.path.is_ident(&self.e)) {
+                                            for a in mc.args.iter_mut() { self.visit_expr_mut(a); }
+                                            let recv = &self.recv;
+                                            let k = &self.k;
+                                            let name = mc.method.to_string();
+                                            let ne: Option<Expr> = match (name.as_str(), mc.args.len()) {
+                                                ("insert", 1) => { let v = &mc.args[0]; Some(parse_quote!(#recv.insert(#k, #v))) }
+                                                ("get_mut", 0) | ("into_mut", 0) => Some(parse_quote!(#recv.get_mut(&#k).unwrap())),
+                                                ("get", 0) => Some(parse_quote!(#recv.get(&#k).unwrap())),
+                                                ("remove", 0) => Some(parse_quote!(#recv.remove(&#k).unwrap())),
+                                                _ => { self.bad = true; None }
+                                            };
+                                            if let Some(ne) = ne { *x = ne; }
+                                            return;
+                                        }
+                                    } else if let Expr::Path(p) = x {
+                                        if p.path.is_ident(&self.e) { self.bad = true; }
+                                    }
+                                    visit_mut::visit_expr_mut(self, x);
+                                }
+                            }
+                            let mut bodies: Vec<(String, Expr)> = vec![];
+                            let mut bad = false;
+                            for (arm, kind) in m.arms.iter().zip([k0, k1]) {
+                                let mut b = (*arm.body).clone();
+                                if let Some(id) = kind.1 {
+                                    let mut sub = EntrySubst { e: id, recv: recv.clone(), k: kk.clone(), bad: false };
+                                    sub.visit_expr_mut(&mut b);
+                                    bad |= sub.bad;
+                                }
+                                bodies.push((kind.0, b));
+                            }
+                            if !bad {
+                                let vac = bodies.iter().find(|(k, _)| k == "Vacant").unwrap().1.clone();
+                                let occ = bodies.iter().find(|(k, _)| k == "Occupied").unwrap().1.clone();
+                                let vb: Block = match vac { Expr::Block(b) if b.label.is_none() => b.block, other => parse_quote!({ #other; }) };
+                                let ob: Block = match occ { Expr::Block(b) if b.label.is_none() => b.block, other => parse_quote!({ #other; }) };
+                                let ne: Expr = parse_quote!({
+                                    let #kk = #key;
+                                    if !#recv.contains_key(&#kk) #vb else #ob
+                                });
+                                *e = ne;
+                                self.log("N8g4-entry-match", sp);
+                            }
+                        }
+                    }
+                }
+            }
+        }
         if let Expr::If(i) = e {
             if contains_let(&i.cond) && !matches!(&*i.cond, Expr::Let(_)) {
                 let sp = i.if_token.span;
